@@ -16,7 +16,7 @@ const YEAR: u64 = 31_557_600;
 const Y2100: u64 = 4_102_444_800;
 
 pub fn run(ctx: &Ctx) -> Report {
-    let n = ctx.cases(400, 12_000);
+    let n = ctx.cases(2_000, 200_000);
     let local = run_cases(ctx, n, |case, l| one_case(ctx, case, l));
     let mut rep = Report::new(
         "exploration",
